@@ -139,9 +139,10 @@ namespace sim
          const SetId cls[] = { static_cast< SetId >( IO_LAZY ), static_cast< SetId >( IO_STRING ), static_cast< SetId >( IO_CSTREAM ), static_cast< SetId >( IO_ISTREAM ) };
          j.set = cls[ r.below( 4 ) ];
          Case& c = j.c;
-         c.prog = IO_PROG_HOOKS;
+         // 8: adaptors and control_action; 9 / 10: the tracer (JSON grammar)
+         c.prog = r.chance( 1, 2 ) ? IO_PROG_HOOKS : ( r.chance( 1, 2 ) ? IO_PROG_TRACE : IO_PROG_TRACE + 1 );
          c.vetoseed = r.next();
-         c.input = gen_io_input( mix64( s, 0x696f ), IO_PROG_HOOKS, int( j.set ) );
+         c.input = gen_io_input( mix64( s, 0x696f ), c.prog == IO_PROG_HOOKS ? IO_PROG_HOOKS : 1, int( j.set ) );
          c.maximum = static_cast< std::uint32_t >( c.input.size() ) + 64;
          if( int( j.set ) == IO_CSTREAM || int( j.set ) == IO_ISTREAM ) {
             gen_stream_plan( mix64( s, 0x706c616e ), c, 64 );
